@@ -64,6 +64,11 @@ def cases(tier):
             yield dict(kind="objective-history", objectives=[[None, r[1], r[2], r[0]], list(o)])
     for variant in ("mapping", "pairs", "subset", "binary", "permuted-mapping", "permuted-pairs", "repeated-variable", "interior-swap"):
         yield dict(kind="get-values", variant=variant)
+    # solve, read, change the model, solve again, read again - under every combination of (finite time limit, extra custom timeout): the second read must
+    # show the second solve's values whichever branch of optimize() ran
+    for tl in (None, 30):
+        for custom in (False, True):
+            yield dict(kind="get-values", variant="re-solve", time_limit=tl, custom_timeout=custom)
     for probe in ("changeColsBounds", "getCols-order", "addVariables-index-order", "allVariableValues-by-column", "infeasible-status-name"):
         yield dict(kind="highspy-conformance", probe=probe)
 
@@ -122,7 +127,29 @@ def _objective_history(case):
     return ok, dict(expected=want, observed=got, status=s.get_model_status())
 
 
+def _get_values_resolve(case):
+    import flowpaths.utils.solverwrapper as sw
+    kw = {}
+    if case.get("time_limit") is not None:
+        kw["time_limit"] = case["time_limit"]
+    if case.get("custom_timeout"):
+        kw["use_also_custom_timeout"] = True
+    s = sw.SolverWrapper(**kw)
+    vs = s.add_variables(["a", "b"], "v", lb=0, ub=9, var_type="integer")
+    s.add_constraint(vs["a"] + vs["b"] >= 3, name="c0")
+    s.set_objective(2 * vs["a"] + vs["b"], sense="minimize")
+    s.optimize()
+    first = {k: round(float(x), 6) for k, x in s.get_values(vs).items()}
+    s.add_constraint(vs["b"] <= 1, name="c1")
+    s.optimize()
+    second = {k: round(float(x), 6) for k, x in s.get_values(vs).items()}
+    ok = s.get_model_status() == "kOptimal" and first == {"a": 0.0, "b": 3.0} and second == {"a": 2.0, "b": 1.0}
+    return ok, dict(first=first, second=second, expected_first={"a": 0, "b": 3}, expected_second={"a": 2, "b": 1}, status=s.get_model_status())
+
+
 def _get_values(case):
+    if case["variant"] == "re-solve":
+        return _get_values_resolve(case)
     s = rp._sw()
     vs = s.add_variables(["a", "b", "c", "d"], "v", lb=0, ub=9, var_type="integer")
     fixed = {"a": 1, "b": 0, "c": 7, "d": 1}
@@ -221,7 +248,7 @@ def check(case):
         return dict(ok=ok, nontrivial=True, fingerprint="a replaced objective does not fully replace the previous one", what="%s -> %s" % (case["objectives"], det), detail=det)
     if k == "get-values":
         ok, det = _get_values(case)
-        return dict(ok=ok, nontrivial=True, fingerprint="values are not read back for exactly the variables asked for", what="%s -> %s" % (case["variant"], det), detail=det)
+        return dict(ok=ok, nontrivial=True, fingerprint="values are not read back for exactly the variables asked for", what="%s%s -> %s" % (case["variant"], (" time_limit=%s custom_timeout=%s" % (case.get("time_limit"), case.get("custom_timeout"))) if case["variant"] == "re-solve" else "", det), detail=det)
     if k == "highspy-conformance":
         ok, det = _conformance(case)
         return dict(ok=ok, nontrivial=True, fingerprint="highspy API contract A1 probe failed: %s" % case["probe"], what=str(det), detail=det)
